@@ -120,6 +120,20 @@ def typecheck(n):
         need("none" not in ks, "a sender without value types is not usable here")
     if k == "retry_when" or k == "repeat_effect_until":
         pass
+    # does the node deliver exactly Val / exactly nothing (needed where the harness names the type: any_sender_of<Val>)?
+    kx = [getattr(c, "exact", True) for c in n.kids]
+    if k in ("when_all", "when_all_range", "into_variant", "done_as_optional"):
+        n.exact = False
+    elif k in ("then", "thenv", "leaf", "leafv", "just", "justv", "just_from", "sched", "just_void_or_done", "stop_if_requested"):
+        n.exact = True
+    elif k in ("let_value", "let_error", "let_done", "finally", "retry_when", "upon_error", "upon_done", "when_any", "variant"):
+        n.exact = all(kx) if k in ("let_error", "let_done", "upon_error", "upon_done", "when_any", "variant") else (kx[1] if k == "let_value" else kx[0])
+    elif k == "sequence":
+        n.exact = kx[-1]
+    else:
+        n.exact = kx[0] if kx else True
+    if k == "any":
+        need(kx[0], "any_sender_of<Val> needs a child that sends exactly Val")
     n.vt = vt
     return vt
 
